@@ -1504,7 +1504,10 @@ udp_resolv_cb(void *arg)
 	}
 
 	udp_pipe_schedule(p);
-	udp_ep_start(ep);
+	if (!ep->started) {
+		// the receiver keeps running across reconnects
+		udp_ep_start(ep);
+	}
 
 	// Send out the connection request.  We don't complete
 	// the user aio until we confirm a connection, so that
@@ -1529,12 +1532,13 @@ udp_ep_connect(void *arg, nni_aio *aio)
 		nni_aio_finish_error(aio, NNG_ECLOSED);
 		return;
 	}
-	if (ep->started) {
+	if (!nni_list_empty(&ep->connaios)) {
+		// (only a connect that is still in progress makes us busy: a
+		// dialer must be able to connect again after its pipe is lost)
 		nni_mtx_unlock(&ep->mtx);
 		nni_aio_finish_error(aio, NNG_EBUSY);
 		return;
 	}
-	NNI_ASSERT(nni_list_empty(&ep->connaios));
 	ep->dialer = true;
 
 	nni_list_append(&ep->connaios, aio);
